@@ -1,14 +1,19 @@
 --------------------------- MODULE GenModels ---------------------------
 (* GEN config for the generated-model family: one state per definition of ModelCases; Emit prints the
-   definition's schema and its instances. *)
+   definition's schema and its instances.  The definitions are reached in two steps (leaf, then
+   wrapper) so that TLC's workers evaluate them in parallel: initial states are computed by one thread. *)
 EXTENDS ModelCases, Json
-VARIABLE n
-Init == n \in DefNames
-Next == UNCHANGED n
+VARIABLES n, stage
+Special == "#special"
+DefsOf(l) == IF l = Special THEN SpecialNames ELSE {DefName(l, w) : w \in {w \in Wrappers : WrapOK(l, w)}}
+Init == n = "-" /\ stage = "root"
+Next == \/ stage = "root" /\ stage' = "leaf" /\ n' \in Leaves \cup {Special}
+        \/ stage = "leaf" /\ stage' = "def" /\ n' \in DefsOf(n)
 SetAsSeq(S) == CHOOSE q \in [1..Cardinality(S) -> S] : \A i, j \in 1..Cardinality(S) : i # j => q[i] # q[j]
-Emit == PrintT(<<"CASE", ToJson([name |-> n, schema |-> DefSchema(n), instances |-> Instances(n)])>>)
+Emit == stage = "def" => PrintT(<<"CASE", ToJson([name |-> n, schema |-> DefSchema(n), instances |-> Instances(n)])>>)
 \* design-level sanity on the oracle itself: ValidModel is weaker than Valid; AllowedVerdicts is never empty
-Sane == \A d \in Instances(n) :
-          /\ Valid(AllDefs, DefSchema(n), d) => ValidModel(AllDefs, DefSchema(n), d)
-          /\ AllowedVerdicts(AllDefs, DefSchema(n), d) # {}
+\* (AllDefs is bound once per state: TLC does not cache a definition that goes through RECURSIVE operators)
+Sane == stage = "def" => LET D == AllDefs  S == DefSchema(n) IN \A d \in Instances(n) :
+          /\ Valid(D, S, d) => ValidModel(D, S, d)
+          /\ AllowedVerdicts(D, S, d) # {}
 =============================================================================
